@@ -22,12 +22,12 @@ const PIECES: [&str; 22] = [
 const N_VALID: usize = 17;
 
 const IPIECES: [&str; 10] = ["a", "{", "}", "\\$", "\\\"", "é", "€", "😀", "\\n", " "];
-const SLOTS: [&str; 17] = [
+const SLOTS: [&str; 18] = [
     "x", "\"s\"", "f(\"(\")", "o.k", "xs[0]", "{\"k\": \"v\"}.k", "$\"${x}\"", "x + \"é\"", "\"€\"", "f(\"{}\")",
-    "$\"${o.k}\"", "\"\\$\" + x", "f(\"\\\"\")", "$\"<${xs[0]}>\"",
+    "$\"${o.k}\"", "\"\\$\" + x", "f(\"\\\"\")", "$\"<${xs[0]}>\"", "fi(x)",
     "1", "y", "null",
 ];
-const N_GOOD_SLOTS: usize = 14;
+const N_GOOD_SLOTS: usize = 15;
 
 const T_PLAIN: u32 = 1;
 const T_INTERP: u32 = 2;
@@ -62,7 +62,7 @@ fn interp_prog(pieces: &[&str], slots_at: &[(usize, usize)]) -> String {
     }
     concat.push(format!("\"{}\"", cur));
     format!(
-        "x := \"X\"\no := {{\"k\": \"K\"}}\nxs := [\"L\"]\nfn f(a) {{\nreturn a\n}}\nprint(\"pre\")\ns := $\"{}\"\nprint(s)\nprint(s == ({}))\nprint(s->len())\n",
+        "x := \"X\"\no := {{\"k\": \"K\"}}\nxs := [\"L\"]\nfn f(a) {{\nreturn a\n}}\nfn fi(a) {{\nreturn $\"[${{a}}${{o.k}}]\"\n}}\nprint(\"pre\")\ns := $\"{}\"\nprint(s)\nprint(s == ({}))\nprint(s->len())\n",
         lit,
         concat.join(" + ")
     )
